@@ -10,7 +10,8 @@ correspondence only).
 * `copy_collection_reads_members`: `fc.copy(dtype=..)` of a collection reads the CURRENT data of the member objects,
   in order, converted to the dtype of the copy.
 * `copy_collection_member_reads`: member `k` of the copy reads member `k` of the original (converted);
-* `binop_collection_scalar_values`: `fc <op> number`; `binop_collection_values`: `fc <op> field / collection`; `negate_collection_values`: `-fc`.
+* `binop_collection_scalar_values`: `fc <op> number`; `binop_collection_values`: `fc <op> field / collection`;
+  `binop_into_second_collection_values`: `scalar field <op> fc`; `negate_collection_values`: `-fc`.
 All about `Heap.step`, the definition the driver `c15.run` folds over every history.
 -/
 set_option linter.unusedSectionVars false
@@ -476,6 +477,72 @@ theorem binop_collection_values {s s' : State K} (hwf : WF s) {bop : BinOp} {a h
   · rw [if_pos ⟨trivial, by omega, by omega, hv⟩, if_pos hv, hold, holdb, hda, hdb]
   · rw [if_neg (fun h => hv h.2.2.2), if_neg hv, hread]
 
+/-- **values of `a <op> fc` when the SECOND operand, a collection, holds the result** (`binopSrc = fc`: a scalar
+field as first operand, base.py:527-531): `op(a[p mod len a], fc[p])` at every valid cell, the current data of the
+members of `fc` converted to the result dtype at every ghost cell. -/
+theorem binop_into_second_collection_values {s s' : State K} (hwf : WF s) {bop : BinOp} {a hb : Nat}
+    {oa ob : Obj} {os : List Obj} (hoa : s.objs[a]? = some oa) (hob : s.objs[hb]? = some ob) (hc : ob.cls = .coll)
+    (hos : getObjs s ob.members = .ok os) (hsrc : binopSrc s bop oa ob = .ok ob)
+    (hs : step G s (.binop bop a (.obj hb)) = .ok s') :
+    ∃ (t : DType) (r : Obj), s'.objs[s.objs.length + os.length]? = some r ∧ r.cls = .coll ∧ r.grid = ob.grid ∧
+      r.view.len = (os.flatMap (fun m => s.store.readView m.view)).length ∧
+      ∀ p, p < r.view.len →
+        (s'.denote (s.objs.length + os.length))[p]? = some
+          (if validSel G r p = true then opv bop (cellOf (s.denote a) p) (cellOf (s.denote hb) p)
+           else ((castCells (some t) (os.flatMap (fun m => s.store.readView m.view)))[p]?).join) := by
+  have ga : getObj s a = .ok oa := by unfold getObj; rw [hoa]
+  have hda : s.denote a = s.store.readView oa.view := by unfold State.denote; rw [hoa]
+  have gb : getObj s hb = .ok ob := by unfold getObj; rw [hob]
+  have hdb : s.denote hb = s.store.readView ob.view := by unfold State.denote; rw [hob]
+  simp only [step, binop, ga, gb, hsrc] at hs
+  split at hs
+  · cases hs
+  split at hs
+  · cases hs
+  split at hs
+  · cases hs
+  split at hs
+  · cases hs
+  unfold copyThenWrite at hs
+  split at hs
+  · cases hs
+  rename_i s1 hc1
+  have hstep : step G s (.copy hb (some ((s.store.dtOf oa.view.buf).result (s.store.dtOf ob.view.buf)))) = .ok s1 := by
+    simp only [step, gb]; exact hc1
+  obtain ⟨e1, _, _⟩ := eff_copyAny hwf hc1
+  obtain ⟨hlen, hden⟩ := copy_collection_reads_members hwf hob hc hos hstep
+  simp only [Option.getD_some] at hden
+  obtain ⟨r, hr, hrc, hrg, hrl⟩ := copy_collection_object hwf hob hc hos hstep
+  have hlast : lastId s1 = s.objs.length + os.length := by unfold lastId; omega
+  rw [hlast] at hs
+  have gr : getObj s1 (s.objs.length + os.length) = .ok r := by unfold getObj; rw [hr]
+  rw [gr] at hs
+  simp only at hs
+  cases hs
+  refine ⟨(s.store.dtOf oa.view.buf).result (s.store.dtOf ob.view.buf), r, hr, hrc, hrg, hrl, ?_⟩
+  intro p hp
+  obtain ⟨hb1, hsz1⟩ := e1.wf _ _ hr
+  have hsz1' : r.view.off + r.view.len ≤ s1.store.size r.view.buf := by simpa using hsz1
+  rw [denote_writeSel e1.wf _ _ _ hr p hp]
+  have e0 : r.view.off + p - r.view.off = p := by omega
+  simp only [e0]
+  have hold : s1.store.readView oa.view = s.store.readView oa.view := by
+    obtain ⟨hb, hsz⟩ := hwf a oa hoa
+    exact e1.readView_eq _ hb (by simpa using hsz)
+  have holdb : s1.store.readView ob.view = s.store.readView ob.view := by
+    obtain ⟨hb, hsz⟩ := hwf hb ob hob
+    exact e1.readView_eq _ hb (by simpa using hsz)
+  have hread : s1.store.read r.view.buf (r.view.off + p) =
+      ((castCells (some ((s.store.dtOf oa.view.buf).result (s.store.dtOf ob.view.buf)))
+        (os.flatMap (fun m => s.store.readView m.view)))[p]?).join := by
+    rw [← hden]
+    unfold State.denote
+    rw [hr, Store.getElem?_readView _ _ p hp hsz1']
+    rfl
+  by_cases hv : validSel G r p = true
+  · rw [if_pos ⟨trivial, by omega, by omega, hv⟩, if_pos hv, hold, holdb, hda, hdb]
+  · rw [if_neg (fun h => hv h.2.2.2), if_neg hv, hread]
+
 theorem flatMap_block {α β : Type} (f : α → List β) : ∀ (l : List α) (k : Nat) (x : α), l[k]? = some x →
     ((l.flatMap f).drop (((l.map (fun a => (f a).length)).take k).sum)).take (f x).length = f x := by
   intro l
@@ -778,5 +845,17 @@ example : True := by
   trivial
 example : (run exGrid {} (exVals.take 7 ++ [.binop .mul 4 (.obj 4)])).denote 7 =
     [none, some 81, some 4, none, some 7, some 9, some 16, some 8] := by decide +kernel
+
+/-- `binop_into_second_collection_values` on `f * fc` (scalar field 0, a member of the collection 4, times the
+collection): the collection operand holds the result, the scalar field is broadcast over both members -/
+example : True := by
+  have h := binop_into_second_collection_values (G := exGrid) (s := run exGrid {} (exVals.take 7))
+    (s' := run exGrid {} (exVals.take 7 ++ [.binop .mul 0 (.obj 4)])) (bop := .mul) (a := 0) (hb := 4)
+    (oa := ⟨.scalar, 0, 1, ⟨4, 0, 4⟩, []⟩) (ob := ⟨.coll, 0, 2, ⟨4, 0, 8⟩, [0, 1]⟩)
+    (os := [⟨.scalar, 0, 1, ⟨4, 0, 4⟩, []⟩, ⟨.vector, 0, 1, ⟨4, 4, 4⟩, []⟩])
+    (wf_run wf_empty _) rfl rfl rfl rfl rfl rfl
+  trivial
+example : (run exGrid {} (exVals.take 7 ++ [.binop .mul 0 (.obj 4)])).denote 7 =
+    [none, some 81, some 4, none, some 7, some 27, some 8, some 8] := by decide +kernel
 
 end PdeVerif.Heap
